@@ -391,7 +391,9 @@ pub fn workloads() -> Vec<Vec<OpSpec>> {
     ]
 }
 
-pub const KINDS: [FaultKind; 10] = [
+pub const KINDS: [FaultKind; 12] = [
+    FaultKind::EpipeAfter,
+    FaultKind::StallMid(2),
     FaultKind::Eof,
     FaultKind::EofMid(2),
     FaultKind::Reset,
@@ -617,7 +619,7 @@ impl Check for C09 {
     }
 
     fn rule_text(&self) -> String {
-        "one run = real Feig::new + 2-5 public calls against the simulated terminal with faults from the plan; single-fault tier: every emission point of connection 0 (handshake, Feig::new's configure, every exchange of 5 workloads — points discovered by a fault-free dry run) x {EOF, EOF mid-frame (1 or 2 bytes), ECONNRESET, NACK, foreign control field, undecodable body, junk, silence, wrong serial}; the same with a second fault at each handshake point of the retry connection; 0..21 refused connects; serial in other letter case (must be accepted); PRNG multi-fault sequences on connections 0..5 with PRNG schedules; oracle rules R1 vetting, R2 abandon, R2b no stacking, R3 reuse, R4 one connection at a time, R5 recovery over the per-connection event log; distinct = hash of per-call (name, result class, control fields, connection) and fired faults (kind, exchange, ack point); non-trivial = a fault or failed connect was planned".into()
+        "one run = real Feig::new + 2-5 public calls against the simulated terminal with faults from the plan; single-fault tier: every emission point of connection 0 (handshake, Feig::new's configure, every exchange of 5 workloads — points discovered by a fault-free dry run) x {EOF, EOF mid-frame (1 or 2 bytes), ECONNRESET, NACK, foreign control field, undecodable body, junk, silence, stall inside a packet, EPIPE on the client's next write, wrong serial}; the same with a second fault at each handshake point of the retry connection; 0..21 refused connects; serial in other letter case (must be accepted); PRNG multi-fault sequences on connections 0..5 with PRNG schedules; oracle rules R1 vetting, R2 abandon, R2b no stacking, R3 reuse, R4 one connection at a time, R5 recovery over the per-connection event log; distinct = hash of per-call (name, result class, control fields, connection) and fired faults (kind, exchange, ack point); non-trivial = a fault or failed connect was planned".into()
     }
     fn assumptions(&self) -> Vec<String> {
         vec![
@@ -649,6 +651,8 @@ impl Check for C09 {
             "fault.junk",
             "fault.silence",
             "fault.wrong_serial",
+            "fault.epipe_after",
+            "fault.stall_mid_frame",
             "fault.connect_refused",
             "probe.wrong_serial_seen",
             "probe.reuse_checked",
@@ -674,7 +678,9 @@ pub fn random_faulty_plan(rng: &mut Rng) -> ClientPlan {
     let nf = 1 + rng.usize_below(4);
     let q = *rng.pick(&[10u64, 25, 60]);
     for _ in 0..nf {
-        let kind = match rng.below(10) {
+        let kind = match rng.below(12) {
+            10 => FaultKind::EpipeAfter,
+            11 => FaultKind::StallMid(rng.below(40) as u16),
             0 => FaultKind::Eof,
             1 => FaultKind::EofMid(rng.below(40) as u16),
             2 => FaultKind::Reset,
